@@ -380,6 +380,10 @@ int sqfs_xattr_reader_seek_kv(sqfs_xattr_reader_t *xr,
 	sqfs_u32 offset = desc->xattr & 0xFFFF;
 	sqfs_u64 block = xr->xattr_start + (desc->xattr >> 16);
 
+	/* no xattr table was loaded */
+	if (xr->kvrd == NULL)
+		return SQFS_ERROR_OUT_OF_BOUNDS;
+
 	return sqfs_meta_reader_seek(xr->kvrd, block, offset);
 }
 
@@ -432,6 +436,9 @@ int sqfs_xattr_reader_read_all(sqfs_xattr_reader_t *xr, sqfs_u32 idx,
 	ret = sqfs_xattr_reader_get_desc(xr, idx, &desc);
 	if (ret)
 		return ret;
+
+	if (desc.count == 0)
+		return 0;
 
 	ret = sqfs_xattr_reader_seek_kv(xr, &desc);
 	if (ret)
